@@ -1,0 +1,4 @@
+// Placeholder for the verification hook in lib.rs (`#[cfg(kani)] mod verif_kani;`).
+// The verification runner overwrites this file, in its own scratch copy of the
+// repository, with generated Kani proof harnesses; nothing is compiled from it
+// in ordinary builds.
